@@ -787,6 +787,11 @@ _dispatch_source_invoke2(dispatch_source_t ds, dispatch_invoke_context_t dic,
 
 	if (_dispatch_unote_needs_delete(dr)) {
 		DISPATCH_VERIF_PROBE(15);
+		if (!dr->du_is_direct && !dr->du_is_timer && dq != dkq) {
+			// muxed unotes share their muxnote with the event loop, it
+			// must only be unregistered from the manager queue
+			return dkq;
+		}
 		_dispatch_source_refs_unregister(ds, DUU_DELETE_ACK | DUU_MUST_SUCCEED);
 	}
 
@@ -936,8 +941,10 @@ _dispatch_source_wakeup(dispatch_source_t ds, dispatch_qos_t qos,
 		tq = DISPATCH_QUEUE_WAKEUP_TARGET;
 	} else if (_du_state_needs_delete(du_state)) {
 		// Deferred deletion can be acknowledged which can always be done
-		// from the target queue
-		tq = DISPATCH_QUEUE_WAKEUP_TARGET;
+		// from the target queue, except for muxed unotes whose muxnote is
+		// owned by the manager queue
+		tq = (dr->du_is_direct || dr->du_is_timer) ?
+				DISPATCH_QUEUE_WAKEUP_TARGET : dkq;
 	} else if (!(dqf & (DSF_CANCELED | DQF_RELEASED)) &&
 			os_atomic_load2o(dr, ds_pending_data, relaxed)) {
 		// The source has pending data to deliver to the target queue.
